@@ -9,6 +9,7 @@ import (
 	"time"
 
 	"com.tuntun.rangers/node/src/common"
+	xdb "com.tuntun.rangers/node/src/middleware/db"
 	"com.tuntun.rangers/node/src/storage/trie"
 	"com.tuntun.rangers/node/src/zzverif/model"
 	"com.tuntun.rangers/node/src/zzverif/runner"
@@ -25,7 +26,7 @@ import (
 // plain map, checked after every operation.
 
 type c02Op struct {
-	K   string `json:"k"`             // upd del get hash commit warm cold limit iter fault
+	K   string `json:"k"`             // upd del get hash commit warm cold limit cap iter fault
 	T   int    `json:"t,omitempty"`   // trie index
 	Key string `json:"key,omitempty"` // hex
 	Val string `json:"val,omitempty"` // hex
@@ -36,6 +37,7 @@ type c02Plan struct {
 	Seed  uint64  `json:"seed"`
 	Tries int     `json:"tries"`
 	Limit int     `json:"limit"`
+	Mem   bool    `json:"mem,omitempty"` // the repository's own MemDatabase under the NodeDatabase (no faults)
 	Ops   []c02Op `json:"ops"`
 }
 
@@ -55,10 +57,10 @@ func (c02) Budget(tier string) runner.Budget {
 
 func (c02) Describe() runner.Description {
 	return runner.Description{
-		Rule: "each case is one seeded history (3..200 ops, swarm-varied mix) of update/delete/get/hash/commit/warm-reopen/cold-reopen/cache-limit/iterate over 1-2 tries sharing one NodeDatabase on the simulated disk, with one-shot disk read faults; after EVERY op the real root is compared with an independent Yellow-Paper MPT root of the model map, reads with the map, iteration with the sorted live pairs; at the end history independence (re-insertion in a seeded other order). distinct_nontrivial = distinct final-content fingerprints among histories that deleted an existing key AND reopened or unloaded nodes (commit with cache limit / cold reopen).",
+		Rule:        "each case is one seeded history (3..200 ops, swarm-varied mix) of update/delete/get/hash/commit/warm-reopen/cold-reopen/cache-limit/node-cache-eviction(NodeDatabase.Cap)/iterate over 1-2 tries sharing one NodeDatabase on the simulated disk with one-shot disk read faults, or (fault-free plans, about a third) on the repository's own MemDatabase; after EVERY op the real root is compared with an independent Yellow-Paper MPT root of the model map, reads with the map, iteration with the sorted live pairs; at the end history independence (re-insertion in a seeded other order). distinct_nontrivial = distinct final-content fingerprints among histories that deleted an existing key AND reopened or unloaded nodes (commit with cache limit / cold reopen).",
 		Assumptions: []string{"keccak256 from golang.org/x/crypto is correct", "the harness's own 60-line RLP/hex-prefix encoder follows the Yellow Paper", "disk read faults are only injected as one-shot errors or not-found results"},
 		Real:        []string{"storage/trie (Trie, hasher, NodeDatabase, iterator)", "storage/rlp (used by the trie)", "common/sha3"},
-		Stub:        []string{"disk: simdisk.KV (in-memory map with write log and fault switchboard)"},
+		Stub:        []string{"disk: simdisk.KV (in-memory map with write log and fault switchboard) in plans that inject faults; the real MemDatabase otherwise"},
 		FaultKinds:  []string{"disk_read_error", "disk_read_missing", "cold_reopen", "warm_reopen", "cache_unload"},
 	}
 }
@@ -144,11 +146,16 @@ func (c02) Gen(seed uint64, tier string) json.RawMessage {
 	}
 	// swarm: per-plan op weights
 	w := map[string]int{"upd": r.Range(3, 10), "del": r.Range(0, 6), "get": r.Range(0, 3), "hash": r.Range(0, 3),
-		"commit": r.Range(0, 4), "warm": r.Range(0, 2), "cold": r.Range(0, 2), "limit": r.Range(0, 1), "iter": r.Range(0, 2), "fault": 0}
+		"commit": r.Range(0, 4), "warm": r.Range(0, 2), "cold": r.Range(0, 2), "limit": r.Range(0, 1), "iter": r.Range(0, 2), "fault": 0, "cap": 0}
 	if r.Chance(0.4) {
 		w["fault"] = r.Range(1, 3)
+	} else if r.Chance(0.5) {
+		p.Mem = true
 	}
-	kinds := []string{"upd", "del", "get", "hash", "commit", "warm", "cold", "limit", "iter", "fault"}
+	if r.Chance(0.4) {
+		w["cap"] = r.Range(1, 3)
+	}
+	kinds := []string{"upd", "del", "get", "hash", "commit", "warm", "cold", "limit", "iter", "fault", "cap"}
 	tot := 0
 	for _, k := range kinds {
 		tot += w[k]
@@ -176,6 +183,9 @@ func (c02) Gen(seed uint64, tier string) json.RawMessage {
 			op.Key = hex.EncodeToString(pool[r.Intn(len(pool))])
 		case "limit":
 			op.N = r.Range(0, 3)
+		case "cap":
+			// size-driven eviction of the write-back node cache down to N bytes
+			op.N = []int{0, 0, 200, 600, 2000}[r.Intn(5)]
 		case "commit":
 			op.N = r.Intn(2) // 1 = also flush to disk
 		case "fault":
@@ -263,7 +273,11 @@ func (c02) Exec(raw json.RawMessage, st *simrt.Stats, log *simrt.Log) *simrt.Vio
 	}
 	st.Evaluations++
 	kv := simdisk.NewKV()
-	ndb := trie.NewDatabase(kv)
+	var disk xdb.Database = kv
+	if p.Mem {
+		disk, _ = xdb.NewMemDatabase()
+	}
+	ndb := trie.NewDatabase(disk)
 	if p.Tries < 1 {
 		p.Tries = 1
 	}
@@ -409,7 +423,7 @@ func (c02) Exec(raw json.RawMessage, st *simrt.Stats, log *simrt.Log) *simrt.Vio
 					x.onDisk = true
 				}
 			}
-			ndb = trie.NewDatabase(kv)
+			ndb = trie.NewDatabase(disk)
 			for _, x := range ts {
 				tr, err := trie.NewTrie(x.commitRoot, ndb)
 				if err != nil {
@@ -422,6 +436,11 @@ func (c02) Exec(raw json.RawMessage, st *simrt.Stats, log *simrt.Log) *simrt.Vio
 			reloaded = true
 		case "limit":
 			t.tr.SetCacheLimit(uint16(op.N))
+		case "cap":
+			if err := ndb.Cap(common.StorageSize(op.N)); err != nil {
+				return viol(i, "commit-error", "db-cap", "NodeDatabase.Cap(%d): %v", op.N, err)
+			}
+			st.Fault("node_cache_evict")
 		case "iter":
 			it := trie.NewIterator(t.tr.NodeIterator(nil))
 			var keys []string
